@@ -46,6 +46,7 @@ func rtGenConfig() model.GenConfig {
 	cfg.MaxSteps = 5
 	cfg.MaxProtocols = 2
 	cfg.Comments = false
+	cfg.KindPairPct = 35
 	cfg.RootNamespace = "Mdl" // "Main" would become the C++ namespace `main`, clashing with the driver's entry point
 	return cfg
 }
